@@ -77,7 +77,12 @@ func registerHarnessIntrinsics() {
 		for i := 0; i <= max; i++ {
 			conds[i] = in.tt.Eq(t, in.tt.BVConst(uint64(i), 64))
 		}
-		return Int(in.fork(conds, "vLen "+name)), true
+		v := in.fork(conds, "vLen "+name)
+		if in.path.choices == nil {
+			in.path.choices = map[string][2]int{}
+		}
+		in.path.choices[name] = [2]int{v, max}
+		return Int(v), true
 	})
 	reg("vPacket", func(in *Interp, fr *frame, args []Value) (Value, bool) {
 		name := concName(args[0])
@@ -268,6 +273,11 @@ func registerHarnessIntrinsics() {
 	reg("vConnFeedErr", func(in *Interp, fr *frame, args []Value) (Value, bool) {
 		o := conn(in, args[0])
 		o.feed = append(o.feed, feedItem{kind: "error", err: in.newError(args[1].(Str), nil)})
+		return nil, true
+	})
+	reg("vConnFeedRaw", func(in *Interp, fr *frame, args []Value) (Value, bool) {
+		o := conn(in, args[0])
+		o.feed = append(o.feed, feedItem{kind: "raw", err: args[1].(Str)})
 		return nil, true
 	})
 	reg("vConnFeedEOF", func(in *Interp, fr *frame, args []Value) (Value, bool) {
